@@ -163,7 +163,10 @@ W_AllocationMet ==
                 /\ \A k \in LevelsObs : 100 * Max(0, mNs[k + 1] - E.Nl[k + 1]) <= E.Nl[k + 1])
 W_FixedShape == ~H.fixed \/ (NObs = H.LMax + 1 /\ \A k \in LevelsObs : E.Nl[k + 1] = H.N0)
 
+ChecksC06 == << <<"LevelBound", W_LevelBound>>, <<"ExitOnCriteria", W_ExitOnCriteria>>,
+               <<"AllocationMet", W_AllocationMet>>, <<"FixedShape", W_FixedShape>> >>
 Checks == IF ~V_Numeric THEN << <<"Numeric", FALSE>> >> ELSE
+          IF ~H.ids THEN << <<"NlExact", V_NlExact>> >> \o ChecksC06 ELSE
           << <<"NlExact", V_NlExact>>, <<"SamplesGenuine", V_SamplesGenuine>>, <<"RowsExact", V_RowsExact>>,
              <<"StatsExact", V_StatsExact>>, <<"StatsWithControls", V_StatsWithControls>>,
              <<"LevelBound", W_LevelBound>>, <<"ExitOnCriteria", W_ExitOnCriteria>>,
